@@ -225,6 +225,28 @@ pub fn gen_script(r: &mut Rng, seed: u64) -> Vec<String> {
     s.push("FSUP 0".into());
     s.push("FINSTALL".into());
     s.push("FRESET".into());
+    if r.chance(1, 3) {
+        // comparison at equality: the first draws of this seed are computed on a throw-away generator, and the
+        // probability is set to exactly draw / 10^6 (the decision is `draw / 10^6 < p`: false at equality),
+        // one step above (true) and, for should_trigger, to the value compared with
+        use redis_sim::io::Rng as _;
+        let mut probe = SimulatedRng::new(seed);
+        let v1 = probe.gen_range(0, 1_000_000);
+        let v2 = probe.gen_range(0, 1_000_000);
+        let v3 = probe.gen_range(0, 1_000_000);
+        let at = |v: u64| (v as f64 / 1_000_000.0).to_bits();
+        s.push("FC new".into());
+        s.push(format!("FSET 3 {}", at(v1)));
+        s.push(format!("FSET 4 {}", at(v2 + 1)));
+        s.push("FINSTALL".into());
+        s.push("FSB 3".into());
+        s.push("FSB 4".into());
+        s.push(format!("FSBP 5 {}", at(v3 + r.below(2))));
+        s.push(format!("FTRIG 3 {}", at(v1)));
+        s.push(format!("FTRIG 4 {}", at(v2)));
+        s.push(format!("FC {}", preset));
+        s.push("FINSTALL".into());
+    }
     if r.chance(1, 4) {
         // the whole catalogue under this preset: every `get`
         for c in 0..MODEL_FAULTS.len() as u64 {
